@@ -206,6 +206,7 @@ class ProcessAttributeTypes(RelativeHandlerInterface):
         if not source:
             logger.warning("Reset absent type: %s", attr_type.name)
             self.reset_attribute_type(attr_type)
+            self.detect_lazy_namespace(None, target, attr)
         elif source.is_enumeration:
             attr.restrictions.min_length = None
             attr.restrictions.max_length = None
@@ -213,8 +214,10 @@ class ProcessAttributeTypes(RelativeHandlerInterface):
                 x.restrictions.format for x in source.attrs if x.restrictions.format
             )
             attr_type.reference = id(source)
+            self.detect_lazy_namespace(None, target, attr)
         elif not source.is_complex_type:
             self.copy_attribute_properties(source, target, attr, attr_type)
+            self.detect_lazy_namespace(None, target, attr)
         elif source.is_element and source.abstract:
             # Substitution groups with abstract elements are used like
             # placeholders and shouldn't be added as standalone fields.
@@ -312,7 +315,7 @@ class ProcessAttributeTypes(RelativeHandlerInterface):
             attr.restrictions.tokens = True
 
     @classmethod
-    def detect_lazy_namespace(cls, source: Class, target: Class, attr: Attr):
+    def detect_lazy_namespace(cls, source: Class | None, target: Class, attr: Attr):
         """Set the attr namespace if the current is marked as lazy.
 
         Cases:
@@ -321,19 +324,21 @@ class ProcessAttributeTypes(RelativeHandlerInterface):
             mapping to class objects.
 
         Args:
-            source: The source class instance
+            source: The source class instance, None if the type is
+                a simple type, an enumeration or is missing
             target: The target class instance
             attr: The target class attr instance
         """
         if attr.namespace == "##lazy":
+            source_namespace = source.namespace if source else None
             logger.warning(
                 "Overriding field type namespace %s:%s (%s)",
                 target.name,
                 attr.name,
-                source.namespace,
+                source_namespace,
             )
 
-            if not source.namespace:
+            if not source_namespace:
                 attr.namespace = "" if target.namespace else None
             else:
-                attr.namespace = source.namespace
+                attr.namespace = source_namespace
